@@ -181,7 +181,7 @@ namespace cs
         else if (profile == "C09D")
         {
             p.set("mode", "deep");
-            p.set("variant", (long long)r.below(2));
+            p.set("variant", (long long)r.below(6)); // 0,4: pool  1,3: stack  2,5: tracked_block_allocator
             p.set("node_size", (long long)r.pick<long long>({8, 16, 32, 48, 100}));
             p.set("block_size", (long long)r.pick<long long>({256, 512, 1024, 2000}));
             for (std::size_t i = 0; i < len; ++i)
